@@ -965,7 +965,34 @@ impl St {
                         cacache::link_to_hash(&c, &target).await))
                 }))
             }
-            "lopen" | "lopen_auto" => self.op_lopen(op == "lopen_auto", a),
+            "lopen" | "lopen_auto" => self.op_lopen(op == "lopen_auto", false, a),
+            // the same with the cache directory handed to the library as an absolute path
+            "lopen_abs" | "lopen_auto_abs" => self.op_lopen(op == "lopen_auto_abs", true, a),
+            // `lcommit_cd L DIR`: commit while the process' working directory is DIR
+            "lcommit_cd" => {
+                need(a, 2)?;
+                let id = parse_id(a[0], 'L')?;
+                let dir = parse_path(a[1])?;
+                let h = take_handle(&mut self.linkers, &id)?;
+                let LH { k, cache, key } = h;
+                let scratch = self.scratch.clone();
+                let run = move || {
+                    if std::env::set_current_dir(format!("{scratch}/{dir}")).is_err() {
+                        return "err io notfound".to_string();
+                    }
+                    let r = guard(move || match k {
+                        LK::S(l) => res_sri(l.commit()),
+                        #[cfg(any(feature = "rt-async-std", feature = "rt-tokio"))]
+                        LK::A(l) => res_sri(rt::block_on(async move { l.commit().await })),
+                    });
+                    let _ = std::env::set_current_dir(&scratch);
+                    r
+                };
+                Ok(match &key {
+                    Some(k) => clocked(&cache, k, run),
+                    None => run(),
+                })
+            }
             "lread" => {
                 need(a, 2)?;
                 let id = parse_id(a[0], 'L')?;
@@ -1136,7 +1163,7 @@ impl St {
     }
 
     /// `lopen F C L KEY|- T algo=A|- size=N|- sri=SRI|-` and `lopen_auto F C L KEY|- T`
-    fn op_lopen(&mut self, auto: bool, a: &[&str]) -> Result<String, Bad> {
+    fn op_lopen(&mut self, auto: bool, abs: bool, a: &[&str]) -> Result<String, Bad> {
         if a.len() < 5 || (auto && a.len() != 5) {
             return Err(Bad::Line);
         }
@@ -1150,6 +1177,8 @@ impl St {
             return Err(Bad::Id);
         }
         let wo = o.write_opts();
+        let c_rel = c.clone();
+        let c = if abs { format!("{}/{}", self.scratch, c) } else { c };
         let r: Result<cacache::Result<LK>, _> = catch_unwind(AssertUnwindSafe(|| {
             flav!(fl,
                 match (&key, auto) {
@@ -1169,7 +1198,7 @@ impl St {
             Err(_) => "panic".to_string(),
             Ok(Err(e)) => lib_err(&e),
             Ok(Ok(k)) => {
-                self.linkers.insert(id, LH { k, cache: c, key });
+                self.linkers.insert(id, LH { k, cache: c_rel, key });
                 "ok".to_string()
             }
         })
@@ -1293,6 +1322,29 @@ fn main() {
         .unwrap_or(60);
     start_watchdog(Duration::from_secs(limit));
 
+    // DRIVE_WORKER=1: run the op loop on a fresh thread, so that per-thread system-call counters
+    // (strace's `when=N`) start at zero for the operations and the process start-up is not counted.
+    let worker = std::env::var_os("DRIVE_WORKER").is_some_and(|v| v == "1");
+    if worker {
+        let h = std::thread::Builder::new()
+            .name("drive-ops".into())
+            .stack_size(64 << 20)
+            .spawn(move || op_loop(scratch_str, mark));
+        match h {
+            Ok(h) => {
+                let _ = h.join();
+            }
+            Err(e) => {
+                eprintln!("drive: cannot spawn the worker thread: {e}");
+                std::process::exit(2);
+            }
+        }
+        std::process::exit(0);
+    }
+    op_loop(scratch_str, mark)
+}
+
+fn op_loop(scratch_str: String, mark: bool) {
     let mut st = St {
         scratch: scratch_str,
         writers: HashMap::new(),
